@@ -13,7 +13,6 @@ Variable h : nat.
 Variable T : trace A.
 Notation tf := (tf A).
 Notation lsat := (lsat A h T).
-Definition cntv (c : cnt) (n : nat) : nat := match c with NOne => 1 | NArg => n end.
 (* until / release whose deferred next (set_future) has the boundary value w at the last state *)
 Fixpoint futw (until w : bool) (sx sy : nat -> bool) (d k : nat) : bool :=
   match d with
